@@ -463,4 +463,8 @@ def norm_model_verify(m, root_token=None):
     out = {"load": "ok", "result": m["result"], "payload_before": m["payload_before"],
            "payload_after": m["payload_after"],
            "log": [c[4] if len(c) > 4 else "?" for c in m["trace"]]}
+    if "honest" in m:
+        # hypotheses of `honest_chain_verifies` evaluated by the model on this world: None = they do not all hold,
+        # otherwise what the theorem predicts
+        out["honest"] = m["honest"]
     return out
